@@ -23,10 +23,16 @@ SOLVERS = ["GNU_gama::AdjEnvelope", "GNU_gama::AdjCholDec", "GNU_gama::AdjGSO", 
 
 
 def _throws_badreg(fn):
-    """CXXThrowExpr nodes of fn whose exception is constructed from Exception::BadRegularization."""
+    """Reachable CXXThrowExpr nodes of fn whose exception is constructed from
+    Exception::BadRegularization (a throw in a block the CFG proves unreachable does not count)."""
     out = []
+    cfg = fn.cfg if fn.rec.get("cfg") else None
     for n in fn.walk():
         if n.get("k") == "CXXThrowExpr":
+            if cfg is not None:
+                pb = cfg.block_of(n)
+                if pb is None or pb[0] not in cfg.reach:
+                    continue
             for x in walk(n):
                 if x.get("k") == "DeclRefExpr" and x["ref"].get("dk") == "enumconst" \
                         and x["ref"].get("name") == "BadRegularization":
@@ -392,8 +398,8 @@ def rule_obs_partition(ctx):
         return out
 
     used, rem = pushes("revised_obs_"), pushes("removed_obs_")
-    if not used or not rem:
-        raise AnalysisBroken("R-PAIR: revision_observations no longer fills revised_obs_/removed_obs_")
+    if not used:
+        raise AnalysisBroken("R-PAIR: revision_observations no longer fills revised_obs_")
 
     def enclosing_if(node):
         child = node
